@@ -553,8 +553,11 @@ class Array(Environment):
                 continue
 
             if tok == '@':
+                # The argument has to be read even when there is no
+                # column before it to attach it to
+                between = tex.readArgument()
                 if output:
-                    output[-1].between = tex.readArgument()
+                    output[-1].between = between
                 continue
 
             if tok == '*':
